@@ -24,7 +24,7 @@ FLOORS = {"quick": {"evaluations": 800, "distinct": 300, "outcome:steps": 6000, 
           "thorough": {"evaluations": 20000, "distinct": 2000}}
 POOL = ['x', 'y', 'z', 'w']
 OPS = ['set', 'set', 'set', 'replace', 'bad', 'bad', 'del', 'rename_axis', 'rename_axis_via_var', 'relabel', 'relabel_via_var', 'relabel_attr',
-       'dims', 'dims_permute', 'set_axis_values', 'set_axis_name', 'set_axis_copy', 'axes_setitem', 'rename_keys', 'rename_axes', 'append_axis']
+       'dims', 'dims_permute', 'set_axis_values', 'set_axis_name', 'set_axis_copy', 'axes_setitem', 'rename_keys', 'rename_axes', 'append_axis', 'relabel_same_array']
 
 
 def shards(tier, seed, scale=1.0):
@@ -196,6 +196,23 @@ def gen_history(rng, nsteps, forced_bad=None):
                 if d in direct:
                     direct.discard(d)
                     direct.add(new)
+        elif op == 'relabel_same_array':
+            # two equally long dimensions relabelled from one and the same ndarray (years, station numbers ...), then one label of the
+            # first corrected in place: the second keeps its labels
+            pairs = [(p, q) for p in dims_now for q in dims_now if p < q and len(sim.axes[p][0]) == len(sim.axes[q][0]) and sim.axes[p][0] and sim.axes[p][1] == sim.axes[q][1]]
+            if not pairs:
+                continue
+            p_, q_ = rng.choice(pairs)
+            k = sim.axes[p_][1]           # (labels of the kind both axes already have)
+            newl = fresh_labels(rng, k, len(sim.axes[p_][0]), sim)
+            steps.append({"op": op, "dims": [p_, q_], "labels": newl, "kind": k, "how": rng.choice(['set_axis', 'attr', 'axis_slice'])})
+            sim.axes[p_] = (list(newl), k)
+            sim.axes[q_] = (list(newl), k)
+            i = rng.randrange(len(newl))
+            newl2 = list(newl)
+            newl2[i] = fresh_labels(rng, k, 1, sim)[0]
+            steps.append({"op": 'relabel', "dim": p_, "i": i, "label": newl2[i], "via": None})
+            sim.axes[p_] = (newl2, k)
         elif op in ('relabel', 'relabel_via_var', 'relabel_attr', 'set_axis_values', 'axes_setitem', 'set_axis_copy'):
             if not dims_now:
                 continue
@@ -491,6 +508,24 @@ def check(case, ctx):
                     observe_state(ctx, res, mo2, "copy returned by " + where)
             else:
                 mo.rename_axis(d, new)
+        elif op == 'relabel_same_array':
+            arr_ = gen.np_labels(st["labels"], st["kind"])
+            ctx.outcomes['two-axes-relabelled-from-one-array'] += 1
+
+            def fn():
+                for d_ in st["dims"]:
+                    if st["how"] == 'set_axis':
+                        ds.set_axis(arr_, axis=d_)
+                    elif st["how"] == 'attr':
+                        setattr(ds, d_, arr_)
+                    else:
+                        ds.axes[d_][:] = arr_
+            _, exc = ctx.call("%s %r <- one ndarray %s (%s) %s" % (op, st["dims"], codec.short(st["labels"], 60), st["how"], where), fn, operands=(ds,), mutates=(ds,))
+            if exc is not None:
+                ctx.v(ID, op + "-raised", "%s raised %s: %s; %s" % (op, type(exc).__name__, str(exc)[:100], where))
+                return (op + '-raised',)
+            for d_ in st["dims"]:
+                mo.relabel(d_, list(st["labels"]))
         elif op in ('relabel', 'relabel_via_var'):
             d, i, lab = st["dim"], st["i"], st["label"]
             if op == 'relabel':
